@@ -120,3 +120,98 @@ func init() {
 		},
 	})
 }
+
+func init() {
+	register(&Rule{
+		ID: "C08-c", Template: "structural (no de-duplication inside one want's walk)",
+		Doc: "Parents precede children in the send order because the breadth-first walk of a want pushes every commit it dequeues to the FRONT of the list, again each time it is reached by a longer path. In (*ClosedSetsFinder).enqueueWants no membership test whose 'found' outcome skips that push may consult a set that is filled inside the same walk loop (a per-walk visited set keeps only the first, shortest-path visit and breaks the order for merges whose sides differ in length).",
+		Min: 1,
+		Run: func(p *Program, r *RuleResult) error {
+			fn, err := p.SSAFunc("pkg/api/utils.(*ClosedSetsFinder).enqueueWants")
+			if err != nil {
+				return err
+			}
+			r.Analysed = 1
+			// the push of the commit
+			var pushes []ssa.CallInstruction
+			eachCall(fn, func(c ssa.CallInstruction) {
+				if f := calleeFunc(c); f != nil && f.FullName() == "(*container/list.List).PushFront" {
+					args := c.Common().Args
+					if len(args) == 2 {
+						if mi, ok := args[1].(*ssa.MakeInterface); ok {
+							if pt, ok := mi.X.Type().(*types.Pointer); ok {
+								if n, ok := pt.Elem().(*types.Named); ok && n.Obj().Name() == "Commit" {
+									pushes = append(pushes, c)
+								}
+							}
+						}
+					}
+				}
+			})
+			if len(pushes) == 0 {
+				return &AnchorError{"commitList.PushFront(commit) in enqueueWants"}
+			}
+			for _, push := range pushes {
+				header := loopHeaderOf(push.Block())
+				if header == nil {
+					r.bad(callKey(fn, push), p.Rel(push.Pos()), "commit push is inside the walk loop", "cannot identify the walk loop")
+					continue
+				}
+				body := loopBody(header)
+				exits := loopExitEdges(header)
+				// maps updated inside the walk loop
+				updated := map[ssa.Value]bool{}
+				for b := range body {
+					for _, in := range b.Instrs {
+						if mu, ok := in.(*ssa.MapUpdate); ok {
+							updated[mu.Map] = true
+						}
+					}
+				}
+				n := 0
+				bad := false
+				for b := range body {
+					for _, in := range b.Instrs {
+						lk, ok := in.(*ssa.Lookup)
+						if !ok || !lk.CommaOk {
+							continue
+						}
+						n++
+						isUpdated := false
+						for m := range updated {
+							if sameObject(m, lk.X) {
+								isUpdated = true
+							}
+						}
+						if !isUpdated {
+							continue
+						}
+						// does the found edge skip the push?
+						var okv []ssa.Value
+						for _, ref := range *lk.Referrers() {
+							if ex, ok := ref.(*ssa.Extract); ok && ex.Index == 1 {
+								okv = append(okv, ex)
+							}
+						}
+						notFound := boolEdges(fn, forward(okv, fwdOpts{noBinOp: true}), false)
+						cut := mkCut(notFound)
+						for e := range exits {
+							cut[e] = true
+						}
+						if len(header.Instrs) == 0 {
+							continue
+						}
+						if _, reach := reachAfter(fn, lk, header.Instrs[0], cut, map[ssa.Instruction]bool{push: true}); reach {
+							r.bad(callKey(fn, push)+"|walk-dedup", p.Rel(lk.Pos()), "no per-walk visited set skips the front push", "a set filled inside the walk loop decides whether a dequeued commit is pushed: only its first (shortest-path) visit is kept, so a parent can end up after its child")
+							bad = true
+						}
+					}
+				}
+				if !bad {
+					r.okWhy(callKey(fn, push)+"|walk-dedup", p.Rel(push.Pos()), "no per-walk visited set skips the front push", fmt.Sprintf("%d membership tests in the walk loop, none on a set filled inside it", n))
+				}
+			}
+			return nil
+		},
+	})
+}
